@@ -66,7 +66,12 @@ M.model(exists, _m_exists)
 
 
 def below(p, d):
-    """p lies strictly below the directory d"""
+    """p lies strictly below the directory d (every absolute path but '/' lies below '/', every relative one
+    but '.' below '.')"""
+    if str(d) == '/':
+        return str(p).startswith('/') and str(p) != '/'
+    if str(d) == '.':
+        return not str(p).startswith('/') and str(p) != '.'
     return str(p).startswith(str(d) + '/')
 
 
